@@ -17,9 +17,11 @@ Judge(rec) ==
   ELSE
   LET kept == {b \in Bins(kx, ky) : rec.binmask[b[1] + 1][b[2] + 1]}
       nin == NIn(ev, kx, ky)
-      m == Target(rec.fn, rec.fd, nin)
+      \* above = 1: the fraction given to the gate was fn/fd + 1e-9, so f*n lies just above fn*n/fd and the
+      \* gate owes one more event whenever that product is integral (tiny positive f owes one event)
+      m == IF rec.above = 1 THEN (rec.fn * nin) \div rec.fd + (IF nin > 0 THEN 1 ELSE 0) ELSE Target(rec.fn, rec.fd, nin)
       \* f*n computed in floating point may land one ulp above an integral product
-      NSet == IF (rec.fn * nin) % rec.fd = 0 /\ m + 1 <= nin THEN {m, m + 1} ELSE {m}
+      NSet == IF rec.above = 0 /\ (rec.fn * nin) % rec.fd = 0 /\ m + 1 <= nin THEN {m, m + 1} ELSE {m}
       mask == [i \in 1..Len(ev) |-> rec.mask[i]]
   IN
   IF ~\E n \in NSet : ValidGate(ev, rec.ranks, kept, n, kx, ky)
